@@ -472,4 +472,56 @@ def _pydantic_one_parameter(ctx):
             ctx.violation("dump-differs:pydantic:one-parameter", f"{hint!r}: dump {d!r:.200}, expected {good_d!r}", {"source": source})
 
 
-DIRECTED = {"pydantic-one-parameter": _pydantic_one_parameter, "generic-namedtuple-one-parameter": _directed, "initvar-of-type-variable": _initvar, "inherited-init-false-fields": _init_false_fields}
+def _attrs_handwritten_init(ctx):
+    """A generic attrs model with a hand-written __init__ that calls self.__attrs_init__ (attrs then generates that method instead of
+    __init__), subclassed through a parametrisation by children WITHOUT an __init__ of their own: the children inherit the bound types
+    (seeded change: every inherited field was marked as re-annotated by the child, so the parent's binding was dropped)."""
+    mod = types.ModuleType(f"vlib_c16_at{next(_n)}")
+    sys.modules[mod.__name__] = mod
+    source = """
+from typing import Generic, TypeVar, List, Optional
+import attrs
+T = TypeVar('T')
+K = TypeVar('K')
+@attrs.define
+class Parent(Generic[T]):
+    a: T
+    tags: List[T] = attrs.field(factory=list)
+    def __init__(self, a: T, tags: Optional[List[T]] = None):
+        self.__attrs_init__(a, tags or [])
+@attrs.define
+class Child(Parent[int]):
+    b: str = 'x'
+@attrs.define
+class GenChild(Parent[int], Generic[K]):
+    c: K = None
+@attrs.define
+class Wrapping(Parent[List[K]], Generic[K]):
+    pass
+"""
+    try:
+        exec(compile(source, f"<{mod.__name__}>", "exec", dont_inherit=True), mod.__dict__)  # noqa: S102
+    except ImportError:
+        ctx.count("attrs_missing")
+        return
+    cases = [("Child", mod.Child, {"a": 1, "tags": [2], "b": "s"}, [{"a": "1", "b": "s"}, {"a": 1, "tags": ["2"], "b": "s"}]),
+             ("GenChild[str]", mod.GenChild[str], {"a": 1, "tags": [2], "c": "s"}, [{"a": "1", "c": "s"}, {"a": 1, "c": 5}]),
+             ("Wrapping[int]", mod.Wrapping[int], {"a": [1], "tags": [[2]]}, [{"a": 1}, {"a": ["1"]}])]
+    for label, hint, good_d, bad_ds in cases:
+        ok_ = attempt(Retort().load, good_d, hint)
+        ctx.evaluated(("directed-attrs-init", label), nontrivial=True)
+        ctx.count("conforming_loads")
+        if ok_.kind != "ok":
+            ctx.violation("conforming-data-rejected:attrs:handwritten-init", f"{label}: {good_d!r} -> {ok_!r:.250}", {"source": source})
+            continue
+        for bad_d in bad_ds:
+            ko_ = attempt(Retort().load, bad_d, hint)
+            ctx.count("nonconforming_loads")
+            if ko_.kind == "ok":
+                ctx.violation("other-substitution-accepted:attrs:handwritten-init", f"{label}: {bad_d!r} accepted as {ko_.value!r}", {"source": source})
+        d = attempt(Retort().dump, ok_.value, hint)
+        if d.kind != "ok" or not _dump_eq(d.value, good_d):
+            ctx.violation("dump-differs:attrs:handwritten-init", f"{label}: dump {d!r:.200}, expected {good_d!r}", {"source": source})
+
+
+DIRECTED = {"attrs-handwritten-init": _attrs_handwritten_init, "pydantic-one-parameter": _pydantic_one_parameter, "generic-namedtuple-one-parameter": _directed, "initvar-of-type-variable": _initvar, "inherited-init-false-fields": _init_false_fields}
